@@ -77,6 +77,41 @@ theorem paginate_conserves (P : PageInfo → Oracle γ × γ) (ltr : Bool) (root
   have := pages_conserve P ltr root fuel 0 (initState ltr root) hd
   simpa [paginate, initState, Box.from_start] using this
 
+/-- **Order.**  `paginate_conserves` is an equality of LISTS (not of multisets): the concatenation of the
+    pages' line lists is the document's line list.  Spelled out: page k holds a contiguous run of the
+    document, after everything on the pages before it and before everything on the pages after it. -/
+theorem pages_in_document_order (P : PageInfo → Oracle γ × γ) (ltr : Bool) (root : Box) (fuel : Nat)
+    (hd : (paginate P ltr root fuel).done = true) (k : Nat) (hk : k < (paginate P ltr root fuel).pages.length) :
+    root.leaves = pagesLeaves ((paginate P ltr root fuel).pages.take k)
+      ++ ((paginate P ltr root fuel).pages[k]).leaves
+      ++ pagesLeaves ((paginate P ltr root fuel).pages.drop (k+1)) := by
+  rw [← paginate_conserves P ltr root fuel hd]
+  generalize (paginate P ltr root fuel).pages = ps at hk ⊢
+  have split : ∀ (L : List (List Nat)) (k : Nat) (h : k < L.length),
+      L.flatten = (L.take k).flatten ++ (L[k] ++ (L.drop (k+1)).flatten) := by
+    intro L
+    induction L with
+    | nil => intro k h; simp at h
+    | cons x L ih =>
+      intro k h
+      cases k with
+      | zero => simp
+      | succ k =>
+        have := ih k (by simpa using h)
+        simp only [List.flatten_cons, List.take_succ_cons, List.getElem_cons_succ, List.drop_succ_cons, List.append_assoc]
+        rw [this]
+  have := split (ps.map Page.leaves) k (by simpa using hk)
+  simp only [pagesLeaves, List.map_take, List.map_drop, List.append_assoc]
+  rw [this, List.getElem_map]
+
+/-- no reordering: if line `a` precedes line `b` on the pages, it precedes it in the document (the page
+    sequence and the document are the same list) -/
+theorem no_reordering (P : PageInfo → Oracle γ × γ) (ltr : Bool) (root : Box) (fuel : Nat)
+    (hd : (paginate P ltr root fuel).done = true) (i : Nat) (hi : i < root.leaves.length) :
+    (pagesLeaves (paginate P ltr root fuel).pages)[i]'(by rw [paginate_conserves P ltr root fuel hd]; exact hi)
+      = root.leaves[i] := by
+  simp [paginate_conserves P ltr root fuel hd]
+
 /-- every token occurs on the pages exactly as often as in the document (exactly once when the
     document's tokens are distinct) -/
 theorem paginate_count (P : PageInfo → Oracle γ × γ) (ltr : Bool) (root : Box) (fuel : Nat)
